@@ -1,20 +1,21 @@
 (* C04 proofs, part 2: outside the recorded finding classes the run with interruptions and the
    run without them return the same for every statement (for every history of the modelled
    language).  A lock-step simulation with two invariants:
-     Lrel   the logical state of run A and run B agree (tables pointwise, WAL switch, and
-            next_row_id as long as no reopen followed an INSERT);
+     Lrel   the logical states of run A and run B agree up to row ids (Proof/PersistRel.v: after a
+            reopen the counter is rebuilt from the stored keys, so the two runs may number new
+            rows differently), same WAL switch, all stored row ids below the respective counter;
      Fresh  in run A every page image in the WAL equals the page, unless the class-2 scanner has
             flagged the table (so a replay of the WAL is the identity while no flag is raised). *)
 From Coq Require Import ZArith List Bool Lia.
-From TV Require Import Model.Persist Proof.Persist.
+From TV Require Import Model.Persist Proof.Persist Proof.PersistRel.
 Import ListNotations.
 Open Scope Z_scope.
 
-Record Lrel (a : k1) (sA sB : st) : Prop := mkLrel {
-  L_tab : forall t, s_tab sA t = s_tab sB t;
+Record Lrel (sA sB : st) : Prop := mkLrel {
+  L_tab : forall t, osim (s_tab sA t) (s_tab sB t);
   L_wal : s_wal sA = s_wal sB;
-  L_next : k_ro a = false -> s_next sA = s_next sB;
-  L_one : k_ins a = false -> s_next sA = 1 /\ s_next sB = 1 }.
+  L_bA : bnd (s_tab sA) (s_next sA);
+  L_bB : bnd (s_tab sB) (s_next sB) }.
 
 Record Fresh (b : k2) (s : st) : Prop := mkFresh {
   F_wal : k_wal b = s_wal s;
@@ -25,8 +26,8 @@ Record Fresh (b : k2) (s : st) : Prop := mkFresh {
   F_wobj : s_wal s = true -> s_walobj s = true;
   F_noimg : s_walobj s = false -> forall t, p_img (s_ph s t) = None }.
 
-Lemma init_Lrel : forall wal, Lrel k1_init (init wal) (init wal).
-Proof. intros. constructor; cbn; auto. Qed.
+Lemma init_Lrel : forall wal, Lrel (init wal) (init wal).
+Proof. intros. constructor; cbn; auto; intros t tb E; discriminate. Qed.
 Lemma init_Fresh : forall wal, Fresh (k2_init wal) (init wal).
 Proof. intros. constructor; cbn; auto; intros; discriminate. Qed.
 
@@ -41,36 +42,17 @@ Lemma step_stmt : forall s o, is_int o = false ->
               l_obs (lstep (s_tab s) (s_next s) (s_wal s) o)).
 Proof. intros s o H. destruct o; cbn in H; try discriminate; reflexivity. Qed.
 
-Definition insb (o : op) : bool := match o with Ins _ _ | Bulk _ _ _ => true | _ => false end.
-Lemma k1_step_stmt : forall a o, is_int o = false ->
-  k1_step a o = mkK1 (k_ins a || insb o) (k_ro a) (k_c1 a || (insb o && k_ro a)).
-Proof.
-  intros [i r c] o H. destruct o; cbn in *; try discriminate;
-    rewrite ?orb_false_r, ?orb_true_r, ?andb_false_l, ?andb_true_l; reflexivity.
-Qed.
-
 (* ------------------------------------------------------------------ statements keep the logical relation *)
-Lemma stmt_L : forall o a sA sB,
-  is_int o = false -> Lrel a sA sB -> k_c1 (k1_step a o) = false ->
-  snd (step sA o) = snd (step sB o) /\ Lrel (k1_step a o) (fst (step sA o)) (fst (step sB o)).
+Lemma stmt_L : forall o sA sB,
+  is_int o = false -> Lrel sA sB ->
+  snd (step sA o) = snd (step sB o) /\ Lrel (fst (step sA o)) (fst (step sB o)).
 Proof.
-  intros o a sA sB HI [HT HW HN H1] HC.
+  intros o sA sB HI [HT HW BA BB].
   rewrite (step_stmt sA o HI), (step_stmt sB o HI). cbn [fst snd].
-  rewrite (k1_step_stmt a o HI) in *. cbn [k_c1 k_ro k_ins] in *.
-  apply orb_false_iff in HC. destruct HC as [HC1 HC2].
-  assert (is_ins o = true -> s_next sA = s_next sB) as HNI.
-  { intros E. apply HN. destruct o; cbn in E; try discriminate. cbn in HC2. exact HC2. }
   rewrite <- HW.
-  destruct (lstep_sim o (s_tab sA) (s_tab sB) (s_next sA) (s_next sB) (s_wal sA) HT HNI)
-    as (ST & SW & SO & SE & SN & SI).
-  split; [exact SO|].
-  constructor; cbn [s_tab s_wal s_next].
-  - exact ST.
-  - exact SW.
-  - intros R. apply SN, HN, R.
-  - intros E. apply orb_false_iff in E. destruct E as [E1 E2].
-    assert (is_ins o = false) as NI by (destruct o; cbn in *; try reflexivity; discriminate).
-    destruct (SI NI) as [S1 S2]. rewrite S1, S2. apply H1, E1.
+  destruct (lstep_rel o (s_tab sA) (s_tab sB) (s_next sA) (s_next sB) (s_wal sA) HT BA BB)
+    as (ST & SW & SO & SE & B1 & B2).
+  split; [exact SO|]. constructor; cbn [s_tab s_wal s_next]; assumption.
 Qed.
 
 (* ------------------------------------------------------------------ statements keep the images fresh *)
@@ -277,48 +259,73 @@ Qed.
 Lemma Fresh_session : forall b s, Fresh b s -> Fresh (k2_session b) s.
 Proof. intros b s [FW FT FI FS FO FN]. constructor; cbn [k2_session k_wal k_txn k_lg k_st]; auto. Qed.
 
-Lemma int_step : forall o a b sA sB,
-  is_int o = true -> op_in_lang o = true -> Lrel a sA sB -> Fresh b sA ->
+(* an interruption leaves every table of run A as it is *)
+Lemma int_tabs : forall o b s,
+  is_int o = true -> op_in_lang o = true -> Fresh b s ->
+  k_c2 (k2_step b o (snd (step s o))) = false ->
+  forall t, s_tab (fst (step s o)) t = s_tab s t.
+Proof.
+  intros o b s HI HL F HC t.
+  destruct o; cbn [is_int op_in_lang] in HI, HL; try discriminate.
+  - reflexivity.
+  - cbn [step fst snd k2_step] in *.
+    rewrite k2_session_c2, k2_clear_c2 in HC. apply orb_false_iff in HC. destruct HC as [_ HS]. cbn [andb] in HS.
+    cbn [s_tab]. destruct (s_walobj s); [apply (replay_id b s F HS) | reflexivity].
+  - reflexivity.
+  - assert (snd (step s CkptPragma) = OOk 0) as EO by (cbn [step]; destruct (s_walobj s); reflexivity).
+    rewrite EO in HC. cbn [k2_step] in HC.
+    rewrite k2_clear_c2 in HC. apply orb_false_iff in HC. destruct HC as [_ HS]. cbn [andb] in HS.
+    cbn [step]. destruct (s_walobj s); cbn [fst s_tab]; [apply (replay_id b s F HS) | reflexivity].
+Qed.
+
+Lemma bnd_ext : forall tab tab' n, (forall t, tab' t = tab t) -> bnd tab n -> bnd tab' n.
+Proof. intros tab tab' n H B t tb E. rewrite H in E. now apply (B t). Qed.
+
+Lemma restore_ext : forall tab tab', (forall t, tab' t = tab t) -> restore_next tab' = restore_next tab.
+Proof.
+  intros tab tab' H. unfold restore_next. f_equal.
+  induction slots as [|a l IH]; cbn [fold_right]; [reflexivity|].
+  unfold tab_max at 1 3. now rewrite H, IH.
+Qed.
+
+Lemma int_step : forall o b sA sB,
+  is_int o = true -> op_in_lang o = true -> Lrel sA sB -> Fresh b sA ->
   k_c2 (k2_step b o (snd (step sA o))) = false ->
   snd (step sA o) = OOk 0
-  /\ Lrel (k1_step a o) (fst (step sA o)) sB
+  /\ Lrel (fst (step sA o)) sB
   /\ Fresh (k2_step b o (snd (step sA o))) (fst (step sA o)).
 Proof.
-  intros o a b sA sB HI HL L F HC.
-  pose proof L as [HT HW HN H1]. pose proof F as [FW FT FI FS FO FN].
+  intros o b sA sB HI HL L F HC.
+  pose proof (int_tabs o b sA HI HL F HC) as TT.
+  pose proof L as [HT HW BA BB]. pose proof F as [FW FT FI FS FO FN].
+  assert (forall tab', (forall t, tab' t = s_tab sA t) -> bnd tab' (restore_next tab')) as RB.
+  { intros tab' H. apply restore_bnd. intros t tb E. rewrite H in E. eauto. }
   destruct o; cbn [is_int op_in_lang] in HI, HL; try discriminate.
   - (* ReopenClose *)
-    cbn [step fst snd k1_step k2_step] in *. split; [reflexivity|]. split.
-    + constructor; cbn [s_tab s_wal s_next k_ro k_ins]; auto.
-      * intros R. apply orb_false_iff in R. destruct R as [_ R]. symmetry. apply (H1 R).
-      * intros R. split; [reflexivity | apply (H1 R)].
+    cbn [step fst snd k2_step] in *. split; [reflexivity|]. split.
+    + constructor; cbn [s_tab s_wal s_next]; auto.
     + apply Fresh_session. apply (Fresh_cleared b sA); auto.
   - (* ReopenDrop *)
-    cbn [step fst snd k1_step k2_step] in *.
-    rewrite k2_session_c2, k2_clear_c2 in HC. apply orb_false_iff in HC. destruct HC as [_ HS]. cbn [andb] in HS.
-    assert (forall t, (if s_walobj sA then replay_tab (s_tab sA) (s_ph sA) else s_tab sA) t = s_tab sA t) as RT.
-    { intros t. destruct (s_walobj sA); [apply (replay_id b sA F HS) | reflexivity]. }
-    split; [reflexivity|]. split.
-    + constructor; cbn [s_tab s_wal s_next k_ro k_ins]; auto.
-      * intros t. rewrite RT. apply HT.
-      * intros R. apply orb_false_iff in R. destruct R as [_ R]. symmetry. apply (H1 R).
-      * intros R. split; [reflexivity | apply (H1 R)].
+    cbn [step fst snd k2_step] in *. cbn [s_tab] in TT. split; [reflexivity|]. split.
+    + constructor; cbn [s_tab s_wal s_next]; auto.
+      intros t. rewrite TT. apply HT.
     + apply Fresh_session. apply (Fresh_cleared b sA); auto.
   - (* CkptApi *)
-    cbn [step fst snd k1_step k2_step] in *. split; [reflexivity|]. split.
+    cbn [step fst snd k2_step] in *. split; [reflexivity|]. split.
     + constructor; cbn [s_tab s_wal s_next]; auto.
     + apply (Fresh_cleared b sA); auto.
   - (* CkptPragma *)
     assert (snd (step sA CkptPragma) = OOk 0) as EO by (cbn [step]; destruct (s_walobj sA); reflexivity).
-    rewrite EO in *. cbn [k1_step k2_step] in *.
+    rewrite EO in *. cbn [k2_step] in *.
     rewrite k2_clear_c2 in HC. apply orb_false_iff in HC. destruct HC as [_ HS]. cbn [andb] in HS.
-    split; [reflexivity|]. cbn [step]. destruct (s_walobj sA) eqn:WO; cbn [fst].
+    split; [reflexivity|]. revert TT. cbn [step]. destruct (s_walobj sA) eqn:WO; cbn [fst]; intros TT.
     + split.
-      * constructor; cbn [s_tab s_wal s_next]; auto.
-        intros t. rewrite (replay_id b sA F HS). apply HT.
-      * constructor; cbn [s_tab s_ph s_wal s_walobj k_wal k_txn k_lg k_st k2_clear drop_imgs p_img]; auto;
+      * constructor; cbn [s_tab s_wal s_next] in *; auto.
+        -- intros t. rewrite TT. apply HT.
+        -- apply (bnd_ext (s_tab sA)); assumption.
+      * constructor; cbn [s_tab s_ph s_wal s_walobj k_wal k_txn k_lg k_st k2_clear drop_imgs p_img] in *; auto;
           try (intros; discriminate).
-        intros t tb E. rewrite (replay_id b sA F HS) in E. eauto.
+        intros t tb E. rewrite TT in E. eauto.
     + split; [exact L|].
       constructor; cbn [k_wal k_txn k_lg k_st k2_clear]; auto.
       * intros t tb img _ EI. rewrite (FN eq_refl t) in EI. discriminate.
@@ -335,40 +342,39 @@ Lemma run_false_stmt : forall s o t, is_int o = false ->
 Proof. intros s o t H. cbn [run negb]. now rewrite H. Qed.
 
 (* ------------------------------------------------------------------ the simulation *)
-Lemma sim : forall h a b c sA sB,
-  forallb op_in_lang h = true -> Lrel a sA sB -> Fresh b sA ->
-  kclass (kscan a b c h (run true sA h)) = 0 ->
+Lemma sim : forall h b sA sB,
+  forallb op_in_lang h = true -> Lrel sA sB -> Fresh b sA ->
+  kclass (kscan b h (run true sA h)) = 0 ->
   oracle h (run true sA h) (run false sB h) = true.
 Proof.
-  induction h as [|o h IH]; intros a b c sA sB HL L F HK; [reflexivity|].
+  induction h as [|o h IH]; intros b sA sB HL L F HK; [reflexivity|].
   cbn [forallb] in HL. apply andb_true_iff in HL. destruct HL as [HO HL].
   rewrite run_true_cons in *. cbn [kscan] in HK.
-  destruct (final_zero_now _ _ _ _ _ HK) as [C1 C2].
+  pose proof (final_zero_now _ _ _ HK) as C2.
   destruct (is_int o) eqn:HI.
   - (* an interruption: only run A executes it *)
     rewrite (run_false_int sB o h HI).
-    destruct (int_step o a b sA sB HI HO L F C2) as (EO & L' & F').
+    destruct (int_step o b sA sB HI HO L F C2) as (EO & L' & F').
     cbn [oracle]. rewrite HI, EO.
-    rewrite EO in HK, F'. apply (IH _ _ _ _ _ HL L' F' HK).
+    rewrite EO in HK, F'. apply (IH _ _ _ HL L' F' HK).
   - (* a statement: both runs execute it *)
     rewrite (run_false_stmt sB o h HI).
-    destruct (stmt_L o a sA sB HI L C1) as (EO & L').
+    destruct (stmt_L o sA sB HI L) as (EO & L').
     pose proof (stmt_F o b sA HI HO F) as F'.
     cbn [oracle]. rewrite HI, <- EO.
     assert (obs_eqb (snd (step sA o)) (snd (step sA o)) = true) as R.
     { apply obs_eqb_refl. rewrite (step_stmt sA o HI). cbn [snd]. apply lstep_not_weird; assumption. }
     rewrite R. cbn [andb].
-    apply (IH _ _ _ _ _ HL L' F' HK).
+    apply (IH _ _ _ HL L' F' HK).
 Qed.
 
-(* the model satisfies the property outside the recorded classes: for every history of the
+(* the model satisfies the property outside the recorded class: for every history of the
    modelled language, from a new database, WAL on or off *)
 Lemma persist_observational_id_l : forall wal h,
   in_lang h = true ->
   known_class_of wal h (run true (init wal) h) = 0 ->
   oracle h (run true (init wal) h) (run false (init wal) h) = true.
 Proof.
-  intros wal h HL HK. unfold in_lang in HL. apply andb_true_iff in HL. destruct HL as [HL _].
-  unfold known_class_of in HK.
-  apply (sim h k1_init (k2_init wal) k3_init); auto using init_Lrel, init_Fresh.
+  intros wal h HL HK. unfold in_lang in HL. unfold known_class_of in HK.
+  apply (sim h (k2_init wal)); auto using init_Lrel, init_Fresh.
 Qed.
